@@ -179,6 +179,38 @@ SPEC_RULE = ("; specification judge (independent of the model): the property's r
              "output from the go/types facts and the notations written in the setup file (rule applications are counted in the "
              "distribution as rule-applied:*)")
 
+# hand-modelled Go source per property (prefixes of "<file>:<receiver>.<func>" keys of the extracted fingerprints)
+F_BUILDER = ["pkg/builder/assignment.go", "pkg/builder/model/node.go", "pkg/builder/model/struct.go", "pkg/builder/model/util.go",
+             "pkg/util/types.go"]
+F_METHOD = ["pkg/builder/method.go", "pkg/builder/model/method.go", "pkg/util/import.go"]
+F_HOOKS = ["pkg/builder/postprocess.go"]
+F_NOTATION = ["pkg/parser/comment.go", "pkg/option/"]
+F_PARSER = ["pkg/parser/parser.go", "pkg/parser/interface.go", "pkg/parser/method.go", "pkg/util/ast.go"]
+F_RUNNER = ["main.go", "pkg/config/config.go", "pkg/runner/runner.go", "pkg/generator/generator.go"]
+MODELLED = {
+    "C01": F_BUILDER + F_METHOD + F_HOOKS,
+    "C02": F_BUILDER + F_METHOD,
+    "C03": F_PARSER + F_RUNNER + F_METHOD,
+    "C04": F_BUILDER + ["pkg/option/option.go"],
+    "C05": F_BUILDER + ["pkg/logger/logger.go"],
+    "C06": F_BUILDER + F_NOTATION,
+    "C07": ["pkg/builder/assignment.go", "pkg/builder/model/node.go", "pkg/builder/model/struct.go", "pkg/builder/method.go",
+            "pkg/builder/model/method.go", "pkg/parser/comment.go"] + F_HOOKS,
+    "C08": F_METHOD + ["pkg/parser/method.go", "pkg/parser/comment.go"],
+    "C09": F_PARSER + ["pkg/parser/comment.go", "pkg/option/option.go"],
+    "C10": F_HOOKS + ["pkg/parser/comment.go", "pkg/builder/method.go"],
+    "C11": F_PARSER,
+    "C12": ["pkg/parser/parser.go"] + F_RUNNER,
+    "C13": F_RUNNER + ["pkg/util/import.go", "pkg/parser/parser.go"],
+    "C14": F_PARSER + F_NOTATION + ["pkg/builder/method.go", "pkg/util/import.go"] + F_HOOKS,
+    "C15": F_RUNNER,
+    "C16": ["pkg/builder/assignment.go:assignmentBuilder.sliceToSlice", "pkg/builder/assignment.go:assignmentBuilder.structFieldAndStruct",
+            "pkg/util/types.go"],
+    "C17": ["pkg/parser/interface.go", "pkg/parser/parser.go", "pkg/util/ast.go"],
+    "C18": F_RUNNER,
+    "C19": ["pkg/option/"],
+}
+
 RENDER = ["Convergen.Bridge.Render"]
 TABLES = ["Convergen.Bridge.Tables"]
 
@@ -439,6 +471,9 @@ PARTIAL = {
     "C16": "freshness of the storage and nil-ness at run time are validated by executing the generated functions",
     "C19": "RE2 itself is an oracle (regexp.MatchString); the theorems are about how patterns are turned into expressions and applied",
 }
+
+for _pid, _pats in MODELLED.items():
+    PROPS[_pid]["modelled"] = _pats
 
 LEVEL_TEXT = {}
 for _pid, _cfg in PROPS.items():
